@@ -328,19 +328,52 @@ def _bumps_tag(fn, new_local, loaded_roots, fx=None, depth=0):
     return False
 
 
+_HELPER_LOAD = {}
+
+
+def _helper_loads(fx, fid, depth=0):
+    """does crate-local `fid` return a value derived from an atomic load it performs?"""
+    if fx is None or not fx.has(fid):
+        return False
+    if fid in _HELPER_LOAD:
+        return _HELPER_LOAD[fid]
+    _HELPER_LOAD[fid] = False
+    cf = Fn(fx.raw(fid))
+    locs, sites = cf.backslice([0], max_nodes=200)
+    res = any(k == "call" and is_atomic_call(pl) and pl["f"].rsplit("::", 1)[-1] == "load" for _, k, pl in sites)
+    if not res and depth < 3:
+        res = any(k == "call" and pl.get("loc") and _helper_loads(fx, pl["f"], depth + 1) for _, k, pl in sites)
+    _HELPER_LOAD[fid] = res
+    return res
+
+
+def head_loads(fn, l, fx=None):
+    """{dest local: line} of the loads of shared state that feed local l: atomic loads in this function and calls of
+    crate-local helpers that return a value they loaded atomically"""
+    out = {}
+    locs, sites = fn.backslice([l])
+    for loc, kind, pl in sites:
+        if kind != "call":
+            continue
+        if is_atomic_call(pl) and pl["f"].rsplit("::", 1)[-1] == "load":
+            out[pl["d"][0]] = pl["ln"]
+        elif pl.get("loc") and _helper_loads(fx, pl["f"]):
+            out[pl["d"][0]] = pl["ln"]
+    return out
+
+
 def aba(ctx, fn, rule="R-ABA", fx=None):
-    """CAS-pop on an intrusive list must be tag-versioned or lock-covered"""
+    """CAS-pop on an intrusive list must be tag-versioned or lock-covered, and the expected word of the CAS must be
+    one snapshot of the head (R-ABA.snapshot): offset and generation taken from two different loads do not date
+    from the moment the successor was read"""
     n = 0
     guards = None
     for b, fld, c, cur, new in cas_sites(fn):
         if cur is None or fld is None:
             continue
         # the loaded value(s) that feed `current`
-        loaded = set()
-        locs, sites = fn.backslice([cur])
-        for loc, kind, pl in sites:
-            if kind == "call" and is_atomic_call(pl) and pl["f"].rsplit("::", 1)[-1] == "load":
-                loaded.add(pl["d"][0])
+        hl = head_loads(fn, cur, fx)
+        loaded = set(hl)
         if not loaded:
             loaded = {cur}
         through = _reads_through(fn, new, loaded)
@@ -352,6 +385,15 @@ def aba(ctx, fn, rule="R-ABA", fx=None):
             guards = guard_locals(fn)
         locked = bool(guards_live_at(fn, term_loc(fn, b), guards))
         ok = tagged or locked
+        if len(hl) > 1 and not locked:
+            ctx.obligation(rule + ".snapshot", fn.id, "expected word of CAS on %s" % fld.rsplit("::", 1)[-1], False,
+                           sample={"fn": fn.id, "atomic": fld, "loads_feeding_expected": sorted(hl.values())})
+            ctx.violation(rule + ".snapshot", fn.id, "CAS expected word assembled from %d loads of %s" % (len(hl), fld.rsplit("::", 1)[-1]),
+                          "the value compared by compare_exchange (line %s) is put together from separate loads of the head (lines %s): "
+                          "the generation no longer dates from the moment the offset and its successor were read, so pop/pop/push by "
+                          "another thread in between goes unnoticed" % (c["ln"], sorted(hl.values())), fn.file, c["ln"])
+        elif not locked:
+            ctx.obligation(rule + ".snapshot", fn.id, "expected word of CAS on %s" % fld.rsplit("::", 1)[-1], True)
         ctx.obligation(rule, fn.id, "CAS-pop on %s" % fld.rsplit("::", 1)[-1], ok,
                        sample={"fn": fn.id, "atomic": fld, "new_value_reads": through, "version_tag_bumped": tagged,
                                "lock_held": locked, "line": c["ln"]})
@@ -544,4 +586,110 @@ def load_modify_store(ctx, fns, rule="R-ATOM.lms"):
                               "%s is updated by a separate load and store (line %d) while %s performs %s on it (line %d) without "
                               "a common lock: an update that lands between the load and the store is lost"
                               % (fld, m[5], o[0].id.rsplit("::", 1)[-1], o[2], o[5]), m[0].file, m[5])
+    return n
+
+
+# ---------------------------------------------------------------- R-COMMIT
+def commit_before_check(ctx, fn, fields_rx=None, rule="R-COMMIT"):
+    """an atomic read-modify-write (fetch_add / fetch_sub / swap) whose returned value then decides a refusal (an edge
+    that can only end in Err / None) has already changed the shared state when the refusal is taken: unless the refusing
+    path undoes it on the same atomic, a refused request still consumes the resource"""
+    import re as _re
+    from rules.pair import err_blocks
+    frx = _re.compile(fields_rx) if fields_rx else None
+    sites = [(b, op, fld, c) for b, op, fld, c in atomic_sites(fn)
+             if op in ("fetch_add", "fetch_sub", "swap", "fetch_or", "fetch_and") and (frx is None or (fld and frx.search(fld)))]
+    if not sites:
+        return 0
+    eb = err_blocks(fn)
+    # also blocks that build Option::None for the return place
+    n = 0
+    for b, op, fld, c in sites:
+        d = c["d"][0]
+        fw = fn.forward_locals([d], call_through=lambda cc: not cc.get("loc"))
+        decides = None
+        for sb in fn.blocks():
+            t = fn.term(sb)
+            if t[0] != "sw" or sb == b:
+                continue
+            l = op_local(t[1])
+            if l is None:
+                continue
+            if l not in fw and not (fn.backslice([l], call_through=lambda cc: not cc.get("loc"), max_nodes=60)[0] & (fw | {d})):
+                continue
+            if not fn.reachable_from([c["t"]] if c.get("t") is not None else fn.succ(b)).__contains__(sb):
+                continue
+            succs = fn.succ(sb)
+            refusing = [s for s in succs if s in eb]
+            passing = [s for s in succs if s not in eb]
+            if refusing and passing:
+                decides = (sb, refusing, t[4] if len(t) > 4 else None)
+                break
+        if decides is None:
+            continue
+        n += 1
+        sb, refusing, line = decides
+        region = fn.reachable_from(refusing)
+        undone = False
+        for b2, op2, fld2, c2 in atomic_sites(fn):
+            if b2 in region and fld2 == fld and op2 in ("fetch_sub", "fetch_add", "store", "compare_exchange", "compare_exchange_weak", "swap"):
+                undone = True
+        ctx.obligation(rule, fn.id, "%s on %s decides a refusal" % (op, (fld or "?").rsplit("::", 1)[-1]), undone,
+                       sample={"fn": fn.id, "atomic": fld, "op": op, "line": c["ln"], "refusal_line": line, "undone_on_refusal": undone})
+        if not undone:
+            ctx.violation(rule, fn.id, "%s on %s committed before the capacity test" % (op, (fld or "?").rsplit("::", 1)[-1]),
+                          "%s.%s (line %s) has already advanced the shared value when the test at line %s refuses the request, and "
+                          "the refusing path does not undo it: refused requests consume the resource and repeated refusals can wrap "
+                          "the cursor back onto live blocks" % ((fld or "?").rsplit("::", 1)[-1], op, c["ln"], line), fn.file, c["ln"])
+    return n
+
+
+# ---------------------------------------------------------------- R-ABA.relink
+def push_relink(ctx, fn, rule="R-ABA.relink", fx=None):
+    """CAS-push on an intrusive list: the freed node's link must be rewritten with the head value of *this* attempt.
+    For every push-style compare_exchange that sits in a retry loop, a store of a head-derived value into memory
+    (`node.next = head`, `*ptr = offset_of(head)`) must lie inside that loop. Written once before the loop, the link
+    still names the head of the first attempt after a retry: the nodes pushed or popped in between are lost or
+    handed out twice."""
+    from rules.prune import natural_loops
+    n = 0
+    loops = None
+    for b, fld, c, cur, new in cas_sites(fn):
+        if cur is None or fld is None:
+            continue
+        hl = head_loads(fn, cur, fx)
+        loaded = set(hl) or {cur}
+        if _reads_through(fn, new, loaded):
+            continue            # pop-style
+        if loops is None:
+            loops = natural_loops(fn)
+        inside = [(h, body) for h, body in loops if b in body]
+        if not inside:
+            continue
+        fw = fn.forward_locals(loaded | {cur})
+        links = []
+        for (sb, i), st in fn.iter_locs():
+            if st[0] == "a" and len(st[1]) > 1 and "*" in st[1][1:]:
+                for o in rv_operands(st[2]):
+                    if op_local(o) in fw and op_const(o) is None:
+                        links.append((sb, st[3]))
+            elif st[0] == "call":
+                cc = st[1]
+                last = cc["f"].rsplit("::", 1)[-1]
+                if last in ("write", "write_unaligned", "write_volatile", "store") and len(cc["a"]) >= 2 and not (
+                        is_atomic_call(cc) and recv_field(fn, cc["a"][0]) == fld):
+                    if op_local(cc["a"][1]) in fw:
+                        links.append((sb, cc["ln"]))
+        if not links:
+            continue
+        n += 1
+        body = set().union(*[bd for _, bd in inside])
+        ok = any(sb in body for sb, _ in links)
+        ctx.obligation(rule, fn.id, "push on %s relinks inside the retry loop" % fld.rsplit("::", 1)[-1], ok,
+                       sample={"fn": fn.id, "atomic": fld, "link_store_lines": sorted({ln for _, ln in links})[:4], "cas_line": c["ln"]})
+        if not ok:
+            ctx.violation(rule, fn.id, "link written outside the CAS retry loop of %s" % fld.rsplit("::", 1)[-1],
+                          "the pushed node's link (line %s) is written once before the compare_exchange loop (CAS at line %s): after a "
+                          "failed attempt the node still points at the head of the first attempt" % (links[0][1], c["ln"]),
+                          fn.file, links[0][1])
     return n
